@@ -261,6 +261,11 @@ followed by same-timestamp, consecutively numbered packets without marker grows 
 ever.  (Finding `klv-unbounded` in known-findings.txt; replayed on the real decoder by the corpus
 case `klv-corpus-unbounded`.) -/
 
+/-- (F) the decoder struct has exactly one byte-carrying field, `buffer []byte` — what `retained`
+measures (regenerated from /repo on every run; a new slice field stops this from compiling) -/
+theorem c08_state_fields : Rtsp.Facts.CodecMisc.klvBufferIsByteSlice = true ∧
+    Rtsp.Facts.CodecMisc.klvDecoderSliceFields = 1 := by decide
+
 /-- (F) regenerated from /repo on every run: `rtpklv/decoder.go` mentions no maximum size at all.
 If a cap is ever added this stops compiling and the negative theorem below must be replaced by
 `c08_retained_le`. -/
